@@ -17,6 +17,7 @@ type LoopRes struct {
 	Why        string
 	InputBound bool     // the bound depends on an input symbol
 	Depth      int      // nesting depth (1 = outermost)
+	RetryRem   bool     // the tested variable is re-drawn on a back edge as (call result) % n: a rejection-sampling loop
 	Calls      []string // names of the statically resolved functions called in the loop itself, nested loops excluded (sorted)
 }
 
@@ -142,6 +143,11 @@ func (a *FuncAn) condLins(cond ssa.Value, truth bool) []Lin {
 			return []Lin{Add(x, y, -1)}
 		case token.EQL:
 			return []Lin{Add(x, y, -1), Add(y, x, -1)}
+		case token.NEQ:
+			// a length (never negative) that is not zero is at least one
+			if v := lenPositiveOperand(c, op); v != nil {
+				return []Lin{a.LenOf(v).plus(-1)}
+			}
 		}
 	}
 	return nil
@@ -149,7 +155,7 @@ func (a *FuncAn) condLins(cond ssa.Value, truth bool) []Lin {
 
 // LoopProgress checks every natural loop of f.
 func (e *Engine) LoopProgress(f *ssa.Function) []LoopRes {
-	a := e.AnalyzeCtx(f)
+	a := e.analyzeFresh(f)
 	if a == nil {
 		return nil
 	}
@@ -231,10 +237,18 @@ func (e *Engine) LoopProgress(f *ssa.Function) []LoopRes {
 			if !ok {
 				break
 			}
+			// an integer loop variable, or a sequence that is consumed (its length is the variable)
+			seqPhi := false
 			if _, _, isInt := e.intInfo(phi.Type()); !isInt {
-				continue
+				if !isSeq(phi.Type()) {
+					continue
+				}
+				seqPhi = true
 			}
 			pl := a.Lin(phi)
+			if seqPhi {
+				pl = a.LenOf(phi)
+			}
 			if len(pl.t) != 1 {
 				continue
 			}
@@ -324,6 +338,9 @@ func (e *Engine) LoopProgress(f *ssa.Function) []LoopRes {
 						a.condFacts(s, iff.Cond, p.Succs[0] == l.head)
 					}
 					ev := a.Lin(phi.Edges[i])
+					if seqPhi {
+						ev = a.LenOf(phi.Edges[i])
+					}
 					g := Scale(Add(ev, pl, -1), dir).plus(-1)
 					if !a.proverFor(s).Entails(g) {
 						prog = false
@@ -347,6 +364,45 @@ func (e *Engine) LoopProgress(f *ssa.Function) []LoopRes {
 			}
 			if best != nil && best.ok {
 				break
+			}
+		}
+		if best != nil && !best.ok {
+			for i, p := range l.head.Preds {
+				isBack := false
+				for _, bk := range l.backs {
+					if bk == p {
+						isBack = true
+					}
+				}
+				if !isBack {
+					continue
+				}
+				v := best.phi.Edges[i]
+				for {
+					cv, ok := v.(*ssa.Convert)
+					if !ok {
+						break
+					}
+					v = cv.X
+				}
+				if rem, ok := v.(*ssa.BinOp); ok && rem.Op == token.REM && l.blocks[rem.Block()] {
+					x := rem.X
+					for {
+						cv, ok := x.(*ssa.Convert)
+						if !ok {
+							break
+						}
+						x = cv.X
+					}
+					switch d := x.(type) {
+					case *ssa.Call:
+						res.RetryRem = l.blocks[d.Block()]
+					case *ssa.Extract:
+						if c, ok := d.Tuple.(*ssa.Call); ok {
+							res.RetryRem = l.blocks[c.Block()]
+						}
+					}
+				}
 			}
 		}
 		switch {
